@@ -138,7 +138,7 @@ C_TABLE = {
     "htmc.HTMC.get_depth": (), "htmc.HTMC.depth": (), "htmc.HTMC.init": (), "htmc.HTMC.cmatch": (),
     "htmc.Matcher": (),                          # constructor(depth, ra, dec): copies into its own vectors
     "htmc.Matcher.match": (),                    # (ra, dec, radius, maxmatch, filename) -> new arrays
-    "htmc.Matcher.get_depth": (), "htmc.Matcher.depth": (),
+    "htmc.Matcher.get_depth": (), "htmc.Matcher.depth": (), "htmc.Matcher.init_hmap": (),   # private helper of the constructor
     "records.Records": (),                       # constructor(filename, mode=, delim=, dtype=, ...)
     "records.Records.Write": (),                 # reads the array through PyArray_DATA / GETPTR only
     "records.Records.write_header_and_update_offset": (), "records.Records.update_row_count": (),
